@@ -72,6 +72,8 @@ def build_module(ctx, case, ifaces, template=None, extra_cfg=None, extra_files=N
     srcpath = MOD + "/" + sdir
     tdn = case.get("td_by_name") or {}
     cfg["packages"] = {srcpath: {"interfaces": {i["name"]: ({"config": {"template-data": tdn[i["name"]]}} if tdn.get(i["name"]) else per_iface) for i in ifaces}}}
+    if case.get("td_pkg"):
+        cfg["packages"][srcpath]["config"] = {"template-data": dict(case["td_pkg"])}
     if case.get("onefile"):
         cfg["filename"] = "mock_all_test.go" if pl in ("inpkg-test", "xtest") else "mock_all.go"
     files[".mockery.yml"] = json.dumps(cfg, ensure_ascii=False, indent=1)
